@@ -204,14 +204,63 @@ func build(t types.Type, terms *[]string) Val {
 	return Scalar{pop(), scalarSort(t)}
 }
 
+// rootTypes remembers the Go type behind each object-heap root (needed to walk nested struct fields).
+var rootTypes = map[string]types.Type{}
+var subIDs = map[string]int{}
+
+func subID(root, field string) string {
+	k := root + "|" + field
+	if _, ok := subIDs[k]; !ok {
+		subIDs[k] = len(subIDs) + 1
+	}
+	return fmt.Sprintf("%d", subIDs[k])
+}
+
 func ptrRoot(elem types.Type) string {
 	if a, ok := under(elem).(*types.Array); ok {
 		return "A|" + canon(a.Elem())
 	}
 	if _, ok := under(elem).(*types.Struct); ok {
-		return "H|" + canon(elem)
+		r := "H|" + canon(elem)
+		rootTypes[r] = elem
+		return r
 	}
 	return "C|" + canon(elem)
+}
+
+// resolveLeaf walks a leaf path of an object pointer through struct-typed (by value) fields: the nested struct lives in
+// the heaps of its own type at the derived reference sub(base, id), so interior struct pointers are first-class values.
+func resolveLeaf(p Ptr, lp string) (Ptr, string) {
+	for strings.HasPrefix(p.Root, "H|") && p.Path == "" {
+		t := rootTypes[p.Root]
+		if t == nil {
+			break
+		}
+		k := strings.Index(lp, ".")
+		if k < 0 {
+			break
+		}
+		first := lp[:k]
+		st, ok := under(t).(*types.Struct)
+		if !ok {
+			break
+		}
+		var ft types.Type
+		for i := 0; i < st.NumFields(); i++ {
+			if st.Field(i).Name() == first {
+				ft = st.Field(i).Type()
+			}
+		}
+		if ft == nil {
+			break
+		}
+		if _, isStruct := under(ft).(*types.Struct); !isStruct {
+			break
+		}
+		p = Ptr{Root: ptrRoot(ft), Base: app("sub", p.Base, subID(p.Root, first))}
+		lp = lp[k+1:]
+	}
+	return p, lp
 }
 
 // flat returns the leaf terms of v in leaves() order.
